@@ -1,11 +1,47 @@
-import TinysetModel.Proofs.Consts
-/-! C12 — see /verif/properties.jsonl.  Theorems for this property are being added; the ones
-below are the obligations checked so far. -/
+import TinysetModel.Proofs.DenseRange
+import TinysetModel.Proofs.CapSpec
+import TinysetModel.Proofs.CoreInst
+/-! C12 — dense sets of small integers cost about a bit per member.
+Proved: (a) `collect()` of `0..n` ends in the dense bitset whose block is `denseCap (n-1)` words — at most
+`n/4 + 64` bytes (2 bits per member + 64 bytes) — for every `64 ≤ n ≤ 2^31`, consuming no random draw.
+(b) For members inserted in ANY order and any outcome of the random growth, the theorem available is the
+general linear bound of C11 (`8 n + 8` words); the sharper "2 bytes per member + 256 bytes" of the property is
+NOT a theorem here: it is decided by the allocator-observed footprint in the harness (orders: descending,
+random, strided, outside-in, inside-out, prefix-maximum-rest; growth scripts minimal / maximal / random).
+Ascending insertion one at a time is likewise checked by the harness, not proved. -/
 namespace C12
 open SC
 
-/-- the model's constants are the ones in the current source -/
-theorem consts_match : TinyC.codec64.splits = Gen.bitsplits64 ∧ TinyC.codec32.splits = Gen.bitsplits32 :=
-  ⟨bitsplits64_match, bitsplits32_match⟩
+variable {D : Type}
+
+/-- SetU64 / Set64<u*> / SetUsize: `collect(0..n)` is dense with the closed-form block size, ≤ n/4 + 64 bytes -/
+theorem collect_range_u64 (g : Rng D) (fuel : Nat) {n : Nat} (hn : 64 ≤ n) (hn' : n ≤ 2 ^ 31) (d : D) :
+    ∃ r, fromIter cfg64 g (fuel + 1) (List.range n) d = .ok (r, d) ∧ len r = n ∧
+      blockBytes cfg64 r = 8 * (1 + (n - 1) / 64 + (n - 1) / 256) + 24 ∧ blockBytes cfg64 r ≤ n / 4 + 64 :=
+  collect_range_bytes64 g fuel hn hn' d
+
+/-- SetU32 -/
+theorem collect_range_u32 (g : Rng D) (fuel : Nat) {n : Nat} (hn : 64 ≤ n) (hn' : n ≤ 2 ^ 31) (d : D) :
+    ∃ r, fromIter cfg32 g (fuel + 1) (List.range n) d = .ok (r, d) ∧ len r = n ∧
+      blockBytes cfg32 r = 4 * (1 + (n - 1) / 32 + (n - 1) / 128) + 12 ∧ blockBytes cfg32 r ≤ n / 4 + 64 :=
+  collect_range_bytes32 g fuel hn hn' d
+
+/-- the layout is the dense one (`bits = W`), with `n` members -/
+theorem collect_range_layout_u64 (g : Rng D) (fuel : Nat) {n : Nat} (hn : 64 ≤ n) (hn' : n ≤ 2 ^ 31) (d : D) :
+    ∃ a, fromIter cfg64 g (fuel + 1) (List.range n) d = .ok (.heap n (cfg64.denseCap (n - 1)) cfg64.W a, d) :=
+  collect_range_dense64 g fuel hn hn' d
+theorem collect_range_layout_u32 (g : Rng D) (fuel : Nat) {n : Nat} (hn : 64 ≤ n) (hn' : n ≤ 2 ^ 31) (d : D) :
+    ∃ a, fromIter cfg32 g (fuel + 1) (List.range n) d = .ok (.heap n (cfg32.denseCap (n - 1)) cfg32.W a, d) :=
+  collect_range_dense32 g fuel hn hn' d
+
+/-- any order, any growth outcome — the proved (weaker) bound: at most `8 n + 8` element words
+    (C11 applied to a history whose high-water mark is `n`) -/
+theorem any_order_partial_u64 (g : Rng D) {r : Rp} {n : Nat} (h : Hist cfg64 g r n) : memUsed cfg64 r ≤ 64 * n + 72 :=
+  hist_footprint64 g (fun fuel => coreOK cfg64_ok g fuel) h
+theorem any_order_partial_u32 (g : Rng D) {r : Rp} {n : Nat} (h : Hist cfg32 g r n) : memUsed cfg32 r ≤ 32 * n + 40 :=
+  hist_footprint32 g (fun fuel => coreOK cfg32_ok g fuel) h
+
+/-- non-vacuity of the closed form: n = 1000 gives 24 + 8·19 = 176 bytes -/
+example : 8 * (1 + (1000 - 1) / 64 + (1000 - 1) / 256) + 24 = 176 ∧ 176 ≤ 1000 / 4 + 64 := by decide
 
 end C12
